@@ -120,7 +120,9 @@ def s_buf_write_all(eng, m, args, fr, dty):
     t = temp_of(eng, w, fr)
     # std's BufWriter keeps anything smaller than its 8 KiB buffer in memory until flush or drop
     w.fields[1] = w.fields[1] + data
-    t.pending = True
+    t.pending = bool(w.fields[1])
+    if not t.pending and not t.items:
+        t.complete = True                  # write_all(&[]) with an empty buffer: nothing is owed to the file
     fs_of(eng).log('buffered_in_memory')
     return Ok(UNIT)
 
